@@ -763,3 +763,72 @@ func (c *Ctx) checkV9(f *ssa.Function) {
 	}
 	c.decide(bad == "", "R17", key, c.pos(mu.Pos()), "every declared tensor with shape information gets an entry", bad)
 }
+
+// ruleParamsComplete (R17:V10): the initializer map holds EVERY initializer of the graph. The shape validator
+// decides "this declared input is an initializer, the caller need not supply it" by looking the name up in that
+// map; an initializer that is filtered out (unreferenced, of some type, ...) turns its graph input into a
+// required one, while ParamNames still lists it.
+func ruleParamsComplete(c *Ctx, prop string) {
+	key := "R17:V10"
+	var f *ssa.Function
+	for _, g := range c.libFns {
+		if fnPkgPath(g) != pkgOnnx || g.Parent() != nil || g.Signature.Recv() == nil || g.Signature.Results().Len() != 2 {
+			continue
+		}
+		if isMapOfTensors(g.Signature.Results().At(0).Type()) {
+			f = g
+		}
+	}
+	if f == nil {
+		c.undecided("R17", key, "", "no method returning the initializers as a map of tensors found in package onnx")
+		return
+	}
+	var mu *ssa.MapUpdate
+	for _, b := range f.Blocks {
+		for _, in := range b.Instrs {
+			if m, ok := in.(*ssa.MapUpdate); ok {
+				mu = m
+			}
+		}
+	}
+	if mu == nil {
+		c.violate("R17", key, c.pos(f.Pos()), "the initializer map is never filled")
+		return
+	}
+	var h *ssa.BasicBlock
+	for d := mu.Block(); d != nil; d = d.Idom() {
+		if lb := loopBlocks(d); len(lb) > 1 && lb[mu.Block()] {
+			h = d
+		}
+	}
+	bad := ""
+	if h == nil {
+		bad = "the initializer map is not filled in a loop over the graph's initializers"
+	} else {
+		// the loop ranges over GetInitializer() / the Initializer field
+		l, okL := indLoopOf(h)
+		src := ""
+		if okL {
+			if lc, ok := l.bound.(*ssa.Call); ok && len(lc.Common().Args) == 1 {
+				src = c.term(lc.Common().Args[0], 0)
+			}
+		}
+		if !strings.Contains(src, "Initializer") {
+			bad = "the loop that fills the initializer map does not range over the graph's initializer list (ranges over " + src + ")"
+		}
+		lb := loopBlocks(h)
+		for _, p := range h.Preds {
+			if !lb[p] || mu.Block().Dominates(p) {
+				continue
+			}
+			bad = "an initializer can be skipped without an error (filtered out of the map): a graph input that it shadows becomes a required input of Run, and introspection (ParamNames) disagrees with enforcement"
+			if len(p.Instrs) > 0 {
+				bad += " (" + c.pos(p.Instrs[len(p.Instrs)-1].Pos()) + ")"
+			}
+		}
+		if early, where := c.loopEarlyExit(h); early && bad == "" {
+			bad = "the loop over the initializers can be left early without an error (" + where + ")"
+		}
+	}
+	c.decide(bad == "", "R17", key, c.pos(mu.Pos()), "every initializer of the graph is decoded into the map (or loading fails)", bad)
+}
